@@ -4,7 +4,8 @@
 (* to a bag-flavor instance:                                               *)
 (*   [id, start, hist, steps (per operation: status, result, the document  *)
 (*    held by the bag afterwards), rt (the document after: write as SEN /  *)
-(*    JSON / pretty and parse again, native data and back, the Go bridge   *)
+(*    JSON / pretty and parse again, three documents in one text parsed    *)
+(*    with json-parse, native data and back, the Go bridge                 *)
 (*    SimpleObject then Simplify)]                                         *)
 (* Every step is recomputed with Bag's Get / Has / Set / Remove; the round *)
 (* trips must give the document back (native data: up to Conflate).        *)
@@ -41,8 +42,16 @@ Judge(t) == LET r == Replay(t, t.start, 1) IN
             ELSE IF ~Same(r.d, t.rt.sen) THEN [at |-> -1, why |-> "written as SEN and parsed", want |-> r.d]
             ELSE IF ~Same(r.d, t.rt.json) THEN [at |-> -1, why |-> "written as JSON and parsed", want |-> r.d]
             ELSE IF ~Same(r.d, t.rt.pretty) THEN [at |-> -1, why |-> "written pretty and parsed", want |-> r.d]
+            \* several documents in one text given to json-parse, the bags kept by the callback and read afterwards
+            ELSE IF ~Same(A(<<r.d, t.start, r.d>>), t.rt.stream) THEN [at |-> -1, why |-> "documents of one SEN text, kept by the callback of json-parse", want |-> r.d]
+            ELSE IF ~Same(A(<<r.d, t.start, r.d>>), t.rt.streamj) THEN [at |-> -1, why |-> "documents of one JSON text, kept by the callback of json-parse", want |-> r.d]
             ELSE IF ~Same(Conflate(r.d), t.rt.native) THEN [at |-> -1, why |-> "native data and back", want |-> Conflate(r.d)]
-            ELSE IF ~Same(r.d, t.rt.bridge) THEN [at |-> -1, why |-> "SimpleObject then Simplify", want |-> r.d]
+            ELSE IF ~Same(r.d, t.rt.bridge) THEN
+                   [at |-> -1, want |-> r.d,
+                    why |-> IF Same(BridgeDev(r.d, {"empty-map"}), t.rt.bridge) THEN "SimpleObject then Simplify [deviation empty-map]"
+                            ELSE IF Same(BridgeDev(r.d, {"false"}), t.rt.bridge) THEN "SimpleObject then Simplify [deviation false]"
+                            ELSE IF Same(BridgeDev(r.d, {"empty-map", "false"}), t.rt.bridge) THEN "SimpleObject then Simplify [deviation empty-map false]"
+                            ELSE "SimpleObject then Simplify"]
             ELSE [at |-> 0, why |-> "", want |-> Null]
 InitT == l = 1 /\ bad = <<>> /\ doc = Null /\ hist = <<>> /\ start = Null
 NextT == /\ l <= Len(Trace) /\ l' = l + 1 /\ UNCHANGED <<doc, hist, start>>
